@@ -233,17 +233,21 @@ func c13Grid(maxL int, pads []int) mc.Harness {
 	const chunks = 16
 	return func(x *mc.Exec) {
 		form := x.All("form", 2)
+		shape := x.All("value-shape", 3) // letters; blanks then one letter; one letter then blanks
 		pi := x.All("padding", len(pads))
 		ch := x.All("length-chunk", chunks)
 		P := pads[pi]
 		lo, hi := 1+maxL*ch/chunks, maxL*(ch+1)/chunks
-		fs := newFailSet(fmt.Sprintf("xmp.lookahead(form=%d)", form))
+		fs := newFailSet(fmt.Sprintf("xmp.lookahead(form=%d,%s)", form, []string{"letters", "leading-blanks", "trailing-blanks"}[shape]))
 		n := 0
 		for L := lo; L <= hi; L++ {
 			n++
 			val := make([]byte, L)
 			for i := range val {
 				val[i] = byte('a' + (i*7+L)%26)
+				if (shape == 1 && i < L-1) || (shape == 2 && i > 0) {
+					val[i] = ' '
+				}
 			}
 			var sb strings.Builder
 			sb.WriteString("<x:xmpmeta xmlns:x=\"adobe:ns:meta/\"><rdf:RDF xmlns:rdf=\"http://www.w3.org/1999/02/22-rdf-syntax-ns#\">")
@@ -279,7 +283,7 @@ func c13Grid(maxL int, pads []int) mc.Harness {
 			fs.add(kind, fmt.Sprintf("L=%d P=%d err=%v got Lens len %d Model %q", L, P, r.Err, len(r.X.Aux.Lens), r.X.Tiff.Model))
 		}
 		x.Bulk = int64(n) - 1
-		x.InputID = uint64(form)<<32 | uint64(pi)<<16 | uint64(ch) + 1
+		x.InputID = uint64(form)<<32 | uint64(shape)<<40 | uint64(pi)<<16 | uint64(ch) + 1
 		x.Outcome = fmt.Sprint(len(fs.order))
 		fs.flush(x, n)
 	}
@@ -303,7 +307,7 @@ func init() {
 				{Name: "forms-and-order", H: c13Forms, Bound: b,
 					Rule: "record of 38 simple and 6 array properties; deviations: another value from the property's menu, element form, absence, array size, quote, attribute/element white space, leading junk, unknown properties, second rdf:Description, xap prefixes, neighbour swap, all-elements; each record also re-serialised in the opposite form and both results compared"},
 				{Name: "lookahead-grid", H: c13Grid(1600, pads), NoLevels: true,
-					Rule: "one string property of every length 1..1600 after P bytes of padding (P menu), attribute and element form, followed by a second property; beyond the 1538-byte window an error is accepted, a wrong value never"},
+					Rule: "one string property of every length 1..1600 (letters; blanks ending in one letter; one letter followed by blanks) after P bytes of padding (P menu), attribute and element form, followed by a second property; beyond the 1538-byte window an error is accepted, a wrong value never"},
 			}
 		},
 		Assumptions: []string{
